@@ -306,6 +306,20 @@ mod verif_kani {
         let b = any_p();
         let r = l(Operation::Pow.eval_fr(fr(a), fr(b)));
         kani::assert(lt4(&r, &P), "Operation_eval_fr/pow-canonical");
+        // modular exponentiation (statement: "modular arithmetic"): the facts every field has, in particular a^0 = 1 also for a = 0
+        // (circom and the integer evaluator's pow_mod agree), and otherwise the trusted ark-ff power of EXACTLY these operands.
+        // How the code gets there is left open: a shortcut that returns the right value without calling pow passes.
+        if eq4(&b, &ZERO) { kani::assert(eq4(&r, &ONE), "Operation_eval_fr/pow-exponent-zero-gives-one"); }
+        else if eq4(&a, &ZERO) { kani::assert(eq4(&r, &ZERO), "Operation_eval_fr/pow-of-zero-is-zero"); }
+        else if eq4(&a, &ONE) { kani::assert(eq4(&r, &ONE), "Operation_eval_fr/pow-of-one-is-one"); }
+        else if eq4(&b, &ONE) { kani::assert(eq4(&r, &a), "Operation_eval_fr/pow-exponent-one-is-identity"); }
+        else {
+            let lg = unsafe { crate::POW_LOG };
+            if lg.calls == 1 {
+                kani::assert(eq4(&lg.base, &a) && lg.exp_len == 4 && eq4(&lg.exp, &b) && eq4(&r, &lg.ret),
+                             "Operation_eval_fr/pow-is-the-field-power-of-exactly-these-operands");
+            }
+        }
     }
     #[kani::proof]
     #[kani::unwind(34)]
